@@ -594,3 +594,54 @@ func Shrink(sc Scenario, p Plan, class string, maxWall time.Duration) Plan {
 	}
 	return cur
 }
+
+// SelfTestDeterminism runs n seeds of every scenario serving property, each in three fresh processes
+// with GOMAXPROCS 1, 4 and 16, and compares the event-log and schedule fingerprints.
+func SelfTestDeterminism(reg *Registry, property string, n int) int {
+	self, _ := os.Executable()
+	bad := 0
+	type job struct {
+		sc string
+		i  int
+	}
+	var jobs []job
+	for _, sc := range reg.Serves[property] {
+		for i := 0; i < n; i++ {
+			jobs = append(jobs, job{sc, i})
+		}
+	}
+	var mu sync.Mutex
+	var wg sync.WaitGroup
+	sem := make(chan struct{}, 8)
+	for _, j := range jobs {
+		wg.Add(1)
+		sem <- struct{}{}
+		go func(j job) {
+			defer wg.Done()
+			defer func() { <-sem }()
+			var fps []string
+			for _, p := range []string{"1", "4", "16"} {
+				cmd := exec.Command(self, "fp", j.sc, property, "7", strconv.Itoa(j.i))
+				cmd.Env = append(os.Environ(), "GOMAXPROCS="+p)
+				out, err := cmd.Output()
+				if err != nil {
+					fps = append(fps, "error:"+err.Error())
+					continue
+				}
+				fps = append(fps, strings.TrimSpace(string(out)))
+			}
+			mu.Lock()
+			if fps[0] != fps[1] || fps[1] != fps[2] {
+				bad++
+				fmt.Printf("NONDETERMINISTIC %s run %d: %v\n", j.sc, j.i, fps)
+			}
+			mu.Unlock()
+		}(j)
+	}
+	wg.Wait()
+	fmt.Printf("determinism self-test %s: %d seeds x 3 processes, %d divergent\n", property, len(jobs), bad)
+	if bad > 0 {
+		return 2
+	}
+	return 0
+}
